@@ -446,6 +446,7 @@ func checkC05(c *Ctx) {
 
 	// ---------------- C05-MEMO: a failed evaluation leaves no memoised result behind
 	c.checkForcedOnlyOnSuccess("C05-MEMO")
+	c.checkMacrosUndone("C05-MACRO")
 
 	// ---------------- C05-PAIR: what a compilation pushes on the loop stack is popped on every way out, errors included
 	{
@@ -908,5 +909,140 @@ func (c *Ctx) checkDeclarationUndone(rule string) {
 	}
 	if n == 0 {
 		c.undecided(rule, "package", "fallible registrations", token.NoPos, "no function registers a user type and can fail afterwards (StructBuilder confirmed by reading)")
+	}
+}
+
+// checkMacrosUndone: C05-MACRO. defmac takes effect while a text is being
+// compiled (later forms of the same text may use the macro), by a store into
+// the interpreter's macro table made by the generator. A routine that compiles
+// a text with a fresh generator and gives up when a form does not compile has
+// run nothing of that text -- and yet the macros of the forms before the
+// broken one are defined, or have replaced earlier definitions: after the
+// failing load "(defmac twice [x] ^(* 3 ~x)) (let)" the old (twice 5) gives 15.
+// Every caller of Generator.GenerateBegin outside the generator restores the
+// macro table on the path on which the compilation failed: that path contains
+// a call of a routine that is handed a saved table (a parameter of the table's
+// type) and stores into Zlisp.macros, or such stores themselves.
+//
+// It does not decide the run-time half of the same question (a text that
+// compiles, defines a macro in a later form and fails at run time in an
+// earlier one): that is a recorded finding.
+func (c *Ctx) checkMacrosUndone(rule string) {
+	gb := c.mustFn(rule, "Generator.GenerateBegin")
+	macrosF := c.mustField(rule, "Zlisp", "macros")
+	genT := c.named("Generator")
+	if gb == nil || macrosF == nil || genT == nil {
+		return
+	}
+	writesMacros := func(f *ssa.Function) bool {
+		w := false
+		eachInstr(f, func(b *ssa.BasicBlock, i int, in ssa.Instruction) {
+			switch x := in.(type) {
+			case *ssa.MapUpdate:
+				if _, ok := loadOfField(x.Map, macrosF); ok {
+					w = true
+				}
+			case *ssa.Call:
+				if bi, ok := x.Call.Value.(*ssa.Builtin); ok && bi.Name() == "delete" && len(x.Call.Args) > 0 {
+					if _, ok := loadOfField(x.Call.Args[0], macrosF); ok {
+						w = true
+					}
+				}
+			}
+		})
+		return w
+	}
+	restorer := func(g *ssa.Function) bool {
+		if g == nil || fnPkgPath(g) != zygoPath || len(g.Blocks) == 0 || !writesMacros(g) {
+			return false
+		}
+		for _, p := range g.Params {
+			if types.Identical(p.Type(), macrosF.Type()) {
+				return true
+			}
+		}
+		return false
+	}
+	// inside the generator: its methods, and the routines that only they call (a nested compilation, whose
+	// failure fails the enclosing one; the outermost routine restores the table)
+	var inside func(f *ssa.Function, depth int) bool
+	inside = func(f *ssa.Function, depth int) bool {
+		f = topFn(f)
+		if isMethodOf(f, genT) {
+			return true
+		}
+		if depth > 3 {
+			return false
+		}
+		callers := c.callersOf(f)
+		if len(callers) == 0 {
+			return false
+		}
+		for g := range callers {
+			if !inside(g, depth+1) {
+				return false
+			}
+		}
+		return true
+	}
+	n := 0
+	for _, f := range c.zygoFuncs() {
+		if inside(f, 0) {
+			continue
+		}
+		for _, site := range callsOf(f, gb) {
+			n++
+			ev, _ := errorValueOf(site)
+			if ev == nil {
+				c.bad(rule, fnName(f), "macro table restored when the text does not compile", site.Pos(), "the error of the compilation is dropped")
+				continue
+			}
+			_, tests := errConsumed(ev, map[ssa.Value]bool{})
+			restored := false
+			for _, iff := range tests {
+				cond, tb, fb := condBranch(iff.Block())
+				bo, ok := cond.(*ssa.BinOp)
+				if !ok {
+					continue
+				}
+				errSide := tb
+				if bo.Op == token.EQL {
+					errSide = fb
+				}
+				// on the failing side, before anything returns
+				for b := range reachableAvoiding(errSide, func(x *ssa.BasicBlock) bool { return false }) {
+					if !errSide.Dominates(b) && b != errSide {
+						continue
+					}
+					for _, in := range b.Instrs {
+						if ci, ok := in.(ssa.CallInstruction); ok && restorer(ci.Common().StaticCallee()) {
+							restored = true
+						}
+					}
+				}
+			}
+			c.check(restored, rule, fnName(f), "macro table restored when the text does not compile", site.Pos(),
+				"the path on which the compilation failed hands the saved macro table to a routine that puts it back",
+				"this routine compiles a text with a fresh generator and returns the compile error without putting the macro table back: nothing of the text has run, yet the macros of the forms before the broken one are defined (or have replaced earlier definitions) from now on")
+		}
+	}
+	// the run-time half: a definition that a failed run must not leave behind unless its form was reached
+	// has to be made by an instruction. The generator's own store into the macro table is made when the
+	// form is compiled, wherever in the text it stands.
+	for _, f := range c.zygoFuncs() {
+		if !isMethodOf(topFn(f), genT) {
+			continue
+		}
+		eachInstr(f, func(b *ssa.BasicBlock, i int, in ssa.Instruction) {
+			if mu, ok := in.(*ssa.MapUpdate); ok {
+				if _, isM := loadOfField(mu.Map, macrosF); isM {
+					c.bad(rule, fnName(f), "takes effect at compile time", in.Pos(),
+						"the macro is installed by the generator while the text is compiled, not by an instruction at the form's place in the run: a text that fails at run time before it reaches a defmac leaves that macro defined")
+				}
+			}
+		})
+	}
+	if n < 3 {
+		c.undecided(rule, "package", "callers of GenerateBegin outside the generator", token.NoPos, fmt.Sprintf("only %d found (LoadExpressions, EvalFunction, SourceExpressions, FuncBuilder confirmed by reading)", n))
 	}
 }
